@@ -2010,3 +2010,25 @@ Lemma flatten_remainder_example :
     ROk (EStruct (u "Headers") [(FId (u "content_type"), ESome (EStr (u "text/plain")));
                                 (FId (u "extra"), EMap [(EStr (u "x-extra"), EStr (u "1"))])]).
 Proof. split; vm_compute; reflexivity. Qed.
+
+(* ================================================================== has_default: Optional vs Default(v) *)
+(* a member whose schema default is not EXACTLY the intrinsic default of its type keeps it (state Default) *)
+Lemma has_default_spec : forall d v,
+  has_default (Some d) (Some v) = if intrinsic_default d v then POptional else PDefault v.
+Proof.
+  intros d v. destruct d; destruct v as [|b|z|q|s|l|kvs]; cbn; try reflexivity;
+    try (destruct l; reflexivity); try (destruct kvs; reflexivity); try (destruct b; reflexivity);
+    try (destruct z; reflexivity); try (destruct (Z.eqb (Qnum q) 0); reflexivity); try (destruct s; reflexivity).
+Qed.
+
+Lemma has_default_not_intrinsic : forall d v, intrinsic_default d v = false -> has_default (Some d) (Some v) = PDefault v.
+Proof. intros d v H. rewrite has_default_spec, H. reflexivity. Qed.
+
+(* floats are never intrinsic: every default of a number-typed member, 0.0 included, is kept *)
+Lemma has_default_float : forall n v, has_default (Some (DFloat n)) (Some v) = PDefault v.
+Proof. intros n v. apply has_default_not_intrinsic. destruct v; reflexivity. Qed.
+
+(* a numeric default of an integer member is intrinsic only when it is the number zero, however small it is *)
+Lemma has_default_integer_nonzero : forall n q, Z.eqb (Qnum q) 0 = false ->
+  has_default (Some (DInteger n)) (Some (JFlt q)) = PDefault (JFlt q).
+Proof. intros n q H. apply has_default_not_intrinsic. cbn. exact H. Qed.
